@@ -676,6 +676,14 @@ def _generate_eems(rng, index, tier):
                     ["CRUN", rng.choice(names)] if r < 0.88 else ["TOUCH"])   # TOUCH: the environment rewrites the data file
     if not any(op[0] == "RUN" for op in hist):
         hist.insert(rng.randrange(len(hist) + 1), ["RUN"])
+    if rng.random() < 0.25:
+        # the data file is not there yet when the client starts: operations fail until the environment delivers it, and
+        # the same program must then run as if nothing had happened
+        hist = [op for op in hist if op[0] != "TOUCH"]
+        hist.insert(rng.randint(1, len(hist)) if len(hist) > 1 and rng.random() < 0.8 else len(hist), ["ARRIVE"])
+        hist.append(["RUN"])
+        if rng.random() < 0.5:
+            hist.append(rng.choice([["RUN"], ["GET", rng.choice(names)]]))
     sched["history"] = hist
     sched["layout"]["eol"] = "\n"
     return {"engine": ENGINE, "prop": "C01", "config": "eems", "family": "eems-model", "model": model, "sched": sched,
@@ -705,13 +713,16 @@ def _execute_eems(sc):
         return res
     nodes = modelsim.program_nodes(cmds, sched.get("order"), sched.get("argseed", 0), (), sched.get("meta"))
     text, _ = rend(nodes, sched.get("layout") or PLAIN)
-    fs = SimFS(log, res, files={model["table"]["path"]: modelgen.csv_text(model["table"])}, dirs=[modelgen.WORK])
+    late = any(op[0] == "ARRIVE" for op in sc["ops"])
+    fs = SimFS(log, res, files={} if late else {model["table"]["path"]: modelgen.csv_text(model["table"])},
+               dirs=[modelgen.WORK])
     deps = {c["name"]: list(dict.fromkeys(ref.refs_of(c))) for c in cmds}
     names = [c["name"] for c in cmds]
     reported = set()
 
     def on_enter(inst, key):
-        if mon.counts[key] > 1 and key not in reported:
+        # (an attempt that failed because the data file was not there yet may be repeated once it is)
+        if (mon.returned.get(key, 0) >= 1 or (not late and mon.counts[key] > 1)) and key not in reported:
             reported.add(key)
             res.violate("C01.I1", "C01.I1 executed-more-than-once",
                         "%s (%s) entered %d times" % (key, type(inst).__name__, mon.counts[key]))
@@ -722,16 +733,39 @@ def _execute_eems(sc):
             program = Program.from_source(text, working_dir=model.get("working_dir", modelgen.WORK))
             mon.install(list(program.command_library.values()))
             complete = False
+            arrived = not late
             for op in sc["ops"]:
                 before = sum(mon.counts.values())
                 log.emit("op-begin", op=op)
-                if op[0] == "RUN":
-                    program.run()
-                elif op[0] == "GET":
-                    program.commands[op[1]].result
-                elif op[0] == "CRUN":
-                    program.commands[op[1]].run()
-                elif op[0] == "TOUCH":
+                try:
+                    if op[0] == "RUN":
+                        program.run()
+                    elif op[0] == "GET":
+                        program.commands[op[1]].result
+                    elif op[0] == "CRUN":
+                        program.commands[op[1]].run()
+                except SimAbort:
+                    raise
+                except Exception as exc:  # noqa
+                    if arrived:
+                        if late:
+                            res.violate("C01.raise", "C01.raise-after-repair %s" % type(exc).__name__,
+                                        "%r raised %r although the data file had been delivered" % (op, exc))
+                            break
+                        raise
+                    log.emit("op-end", op=op, exc=type(exc).__name__)
+                    res.probe("operation failed while the data file was not there yet")
+                    continue
+                if op[0] == "ARRIVE":
+                    path = model["table"]["path"]
+                    fs.files[path] = modelgen.csv_text(model["table"]).encode("utf-8")
+                    fs.touch(path)
+                    arrived = True
+                    log.emit("actor", do="deliver", path=path)
+                    res.fired("actor-deliver-input")
+                    log.emit("op-end", op=op, added=0)
+                    continue
+                if op[0] == "TOUCH":
                     path = model["table"]["path"]
                     fs.files[path] = fs.files[path] + b"\n"
                     fs.touch(path)
@@ -742,13 +776,14 @@ def _execute_eems(sc):
                 if complete and added:
                     res.violate("C01.I5", "C01.I5 executes-after-completion",
                                 "%r executed %d commands after the program had completed" % (op, added))
+                done = mon.returned if late else mon.counts
                 if op[0] in ("GET", "CRUN"):
-                    bad = sorted(x for x in closure(deps, op[1]) if mon.counts.get(x, 0) != 1)
+                    bad = sorted(x for x in closure(deps, op[1]) if done.get(x, 0) != 1)
                     if bad:
                         res.violate("C01.I4", "C01.I4 pull-left-dependencies-unexecuted",
                                     "after %r these commands had not executed exactly once: %r" % (op, bad))
                 if op[0] == "RUN":
-                    bad = sorted(x for x in names if mon.counts.get(x, 0) != 1)
+                    bad = sorted(x for x in names if done.get(x, 0) != 1)
                     if bad:
                         res.violate("C01.I4", "C01.I4 run-incomplete",
                                     "after run() these commands had not executed exactly once: %r" % (bad,))
